@@ -442,7 +442,7 @@ Proof.
     + destruct (ST' y) as [[Hi [S'|S']]|[Hi S']]; rewrite S'; auto. intros [?|?]; discriminate.
     + intros Hy. destruct (ST' y) as [[Hi _]|[Hi S']]; [exfalso; exact (Hout y Hi Hy)|]. rewrite S'. auto.
   - intros y. rewrite M1, G9. destruct (ST' y) as [[Hi _]|[Hi S']]; [auto|]. rewrite S'.
-    intros H. destruct (Rs y H) as [?|[?|[?|?]]]; auto. contradiction.
+    intros H. destruct (Rs y H) as [?|[?|[?|?]]]; auto; contradiction.
   - constructor.
     + intros y. rewrite G1. auto.
     + intros y. rewrite M1, G9. tauto.
@@ -468,7 +468,7 @@ Proof.
     + destruct (ST' y) as [[Hi [S'|S']]|[Hi S']]; rewrite S'; auto. intros [?|?]; discriminate.
     + intros Hy. destruct (ST' y) as [[Hi _]|[Hi S']]; [exfalso; exact (Hout y Hi Hy)|]. rewrite S'. auto.
   - intros y. rewrite M1, G9. destruct (ST' y) as [[Hi _]|[Hi S']]; [auto|]. rewrite S'.
-    intros H. destruct (Rs y H) as [?|[?|[?|?]]]; auto. contradiction.
+    intros H. destruct (Rs y H) as [?|[?|[?|?]]]; auto; contradiction.
   - constructor.
     + intros y. rewrite G1. auto.
     + intros y. rewrite M1, G9. tauto.
@@ -520,6 +520,175 @@ Proof.
   { intros y Hy. destruct (R2' y Hy) as [?|[?|?]]; auto. }
   destruct (sweep_cancelled_x nobody ca _ O2 X2 R2'') as (X3 & R3 & S3).
   split; [exact X3|split; [exact R3|]]. eapply SR_trans; [exact S1|]. eapply SR_trans; eauto.
+Qed.
+
+(** the staging loop: rows and resolved sets untouched; whoever is INITIALIZED
+    with all parents completed ends up in the ready queue *)
+Definition Dp (s : st) : Prop := forall x, incl (getdeps s x) (parents (attr g x)).
+
+Lemma Dp_SR s s' : Dp s -> SR s s' -> Dp s'.
+Proof. intros D S x. eapply incl_tran; [apply (sr_deps s s' S)|apply D]. Qed.
+
+Lemma getdeps_prune_incl x s z : incl (getdeps (deps_prune x s) z) (getdeps s z).
+Proof.
+  destruct (Nat.eq_dec x z) as [->|Hn]; [|rewrite getdeps_prune_neq by auto; apply incl_refl].
+  destruct (Nat.lt_ge_cases z (length (deps s))) as [Hl|Hl].
+  - rewrite getdeps_prune_eq by auto. intros q Hq. apply filter_In in Hq. tauto.
+  - unfold getdeps, deps_prune. cbn [deps set_deps]. rewrite nth_upd_ge by auto. apply incl_refl.
+Qed.
+
+Lemma filter_none {A} (f : A -> bool) l : (forall a, In a l -> f a = false) -> filter f l = [].
+Proof.
+  induction l as [|a l IH]; intros H; cbn; auto. rewrite (H a (or_introl eq_refl)). apply IH.
+  intros b Hb. apply H. right. exact Hb.
+Qed.
+
+Definition stage_rel (s s' : st) : Prop :=
+  (forall y, stat s' y = stat s y) /\ completed s' = completed s /\ failed s' = failed s /\
+  cancelled s' = cancelled s /\ evs s' = evs s /\ length (deps s') = length (deps s) /\
+  (forall z, incl (getdeps s' z) (getdeps s z)) /\ (forall y, In y (ready s) -> In y (ready s')).
+
+Lemma stage_rel_refl s : stage_rel s s.
+Proof. repeat split; auto. intros z. apply incl_refl. Qed.
+Lemma stage_rel_trans a b d : stage_rel a b -> stage_rel b d -> stage_rel a d.
+Proof.
+  intros (A1 & A2 & A3 & A4 & A5 & A6 & A7 & A8) (B1 & B2 & B3 & B4 & B5 & B6 & B7 & B8).
+  split; [intros y; rewrite B1; apply A1|]. repeat (split; [congruence|]).
+  split; [intros z; eapply incl_tran; eauto|auto].
+Qed.
+
+Lemma stage_node_x s x :
+  stage_rel s (stage_node_gen g s x) /\
+  (x < length (deps s) -> Dp s -> incl (parents (attr g x)) (completed s) -> stat s x = INITIALIZED ->
+   ~ In x (completed s) -> In x (ready (stage_node_gen g s x))).
+Proof.
+  unfold stage_node_gen.
+  destruct (mem x (completed s)) eqn:Hc.
+  { split; [apply stage_rel_refl|]. intros _ _ _ _ H. apply mem_In in Hc. contradiction. }
+  fold (stat s x). destruct (state_eqb (stat s x) INITIALIZED) eqn:Hs.
+  2:{ split; [apply stage_rel_refl|]. intros _ _ _ H. rewrite H in Hs. discriminate. }
+  assert (R1 : stage_rel s (deps_prune x s)).
+  { repeat split; auto.
+    - unfold deps_prune. cbn [deps set_deps]. apply length_upd.
+    - intros z. apply getdeps_prune_incl. }
+  destruct (is_nil (getdeps (deps_prune x s) x)) eqn:Hn.
+  - destruct (mem x (ready (deps_prune x s))) eqn:Hr; cbn [negb].
+    + split; [exact R1|]. intros _ _ _ _ _. apply mem_In in Hr. exact Hr.
+    + split.
+      * eapply stage_rel_trans; [exact R1|]. repeat split; auto.
+        -- intros z. apply incl_refl.
+        -- intros y Hy. unfold ready_push. cbn [ready set_ready]. apply in_app_iff. auto.
+      * intros _ _ _ _ _. unfold ready_push. cbn [ready set_ready]. apply in_app_iff. right. left. reflexivity.
+  - split; [exact R1|]. intros Hl D Hp _ _. exfalso.
+    rewrite getdeps_prune_eq in Hn by auto. rewrite filter_none in Hn; [discriminate|].
+    intros q Hq. apply negb_false_iff, mem_In. apply Hp. apply (D x). exact Hq.
+Qed.
+
+Lemma stage_fold_x l : forall s,
+  stage_rel s (fold_left (stage_node_gen g) l s) /\
+  (forall x, In x l -> x < length (deps s) -> Dp s -> incl (parents (attr g x)) (completed s) ->
+     stat s x = INITIALIZED -> ~ In x (completed s) -> In x (ready (fold_left (stage_node_gen g) l s))).
+Proof.
+  induction l as [|a l IH]; intros s; cbn [fold_left]; [split; [apply stage_rel_refl|intros x []]|].
+  destruct (stage_node_x s a) as [R1 S1]. destruct (IH (stage_node_gen g s a)) as [R2' S2].
+  split; [eapply stage_rel_trans; eauto|].
+  pose proof R1 as (A1 & A2 & A3 & A4 & A5 & A6 & A7 & A8).
+  pose proof R2' as (B1 & B2 & B3 & B4 & B5 & B6 & B7 & B8).
+  intros x [->|Hx] Hl D Hp Hs Hc.
+  - apply B8. apply S1; auto.
+  - apply S2.
+    + exact Hx.
+    + rewrite A6. exact Hl.
+    + intros z. eapply incl_tran; [apply A7|apply D].
+    + rewrite A2. exact Hp.
+    + rewrite A1. exact Hs.
+    + rewrite A2. exact Hc.
+Qed.
+
+Lemma stage_rel_SR s s' : stage_rel s s' -> X c s -> R2 nobody s -> X c s' /\ R2 nobody s' /\ SR s s'.
+Proof.
+  intros (A1 & A2 & A3 & A4 & A5 & A6 & A7 & A8) Xs Rs.
+  split; [apply (X_quiet c s); auto|]. split; [apply (R2_quiet nobody s); auto|].
+  constructor; try (intros y; rewrite ?A1, ?A2, ?A3, ?A4; auto; fail); auto.
+  apply ext_same. exact A5.
+Qed.
+
+(** the launch loop *)
+Lemma launch_body_x s : Inv g s -> X c s -> R2 nobody s ->
+  let s' := launch_body_gen c g s in
+  X c s' /\ R2 nobody s' /\ SR s s' /\ ready s' = tl (ready s) /\
+  (forall x, hd_error (ready s) = Some x -> stat s' x <> INITIALIZED).
+Proof.
+  intros I Xs Rs. unfold launch_body_gen.
+  destruct (ready s) as [|x rest] eqn:Er.
+  { cbv zeta. split; [exact Xs|split; [exact Rs|split; [apply SR_refl|split; [rewrite Er; reflexivity|discriminate]]]]. }
+  assert (Hxr : In x (ready s)) by (rewrite Er; left; reflexivity).
+  assert (Hx : x < length g) by (apply (i_bound g s I); auto).
+  assert (Hxc : ~ In x (completed s)) by (intros H; exact (i_dj_cr g s I x H Hxr)).
+  assert (Hxf : ~ In x (failed s) /\ ~ In x (cancelled s)).
+  { split; intros Hf; destruct (i_dj_fc g s I x); auto; tauto. }
+  destruct Hxf as [Hxf Hxk].
+  assert (Hl := nrecs_lt g s x I Hx).
+  set (s1 := set_ready s rest).
+  assert (I1 : Inv g s1) by (eapply Inv_pop; eauto).
+  change (canceled s1) with (canceled s). cbn [tl hd_error].
+  destruct (canceled s).
+  - (* cancelled instead of launched *)
+    pose proof Xs as [XA XB]. pose proof Rs as Rs'. unfold R2, nobody in Rs'.
+    assert (G : X c (cancelled_add x (rec_set_status x CANCELLED s1)) /\
+                R2 nobody (cancelled_add x (rec_set_status x CANCELLED s1)) /\
+                SR s (cancelled_add x (rec_set_status x CANCELLED s1))).
+    { unfold s1, R2, nobody.
+      split; [constructor; intros y; vw Hl; yx y x; cbn [fc_row]; fin Hl
+             |split; [intros y; vw Hl; yx y x; cbn [fc_row]; intros Hfc; try (apply Rs' in Hfc); fin Hl
+                     |constructor; try (intros y; vw Hl; yx y x; cbn [fc_row]; fin Hl);
+                      [intros z; apply incl_refl|apply ext_same; reflexivity]]]. }
+    destruct G as (G1 & G2 & G3). repeat (split; [assumption|]). split; [reflexivity|].
+    intros y E. inversion E; subst y. unfold s1. vw Hl. rewrite Nat.eqb_refl. discriminate.
+  - (* launched *)
+    assert (X1 : X c s1) by (apply (X_quiet c s); auto).
+    assert (R1 : R2 nobody s1) by (apply (R2_quiet nobody s); auto).
+    assert (S1 : SR s s1) by (apply SR_quiet; auto; apply ext_same; reflexivity).
+    pose proof (execute_record_x nobody x false s1 I1 Hx Hxc Hxf Hxk X1 R1) as ER.
+    cbv zeta in ER. destruct ER as (E1 & E2 & E3 & E4 & E5).
+    split; [exact E1|]. split; [exact E2|]. split; [eapply SR_trans; eauto|]. split; [exact E5|].
+    intros y E. inversion E; subst y. auto.
+Qed.
+
+Lemma tl_skipn {A} n (l : list A) : tl (skipn n l) = skipn (S n) l.
+Proof.
+  revert l. induction n as [|n IH]; intros l.
+  - destruct l; reflexivity.
+  - destruct l as [|a l]; [reflexivity|]. change (tl (skipn n l) = skipn (S n) l). apply IH.
+Qed.
+
+Lemma firstn_S_In {A} n (l : list A) y : In y (firstn (S n) l) -> In y (firstn n l) \/ hd_error (skipn n l) = Some y.
+Proof.
+  revert l. induction n as [|n IH]; intros [|a l]; cbn [firstn skipn In hd_error]; try tauto.
+  - intros [->|[]]. auto.
+  - intros [->|H]; auto. destruct (IH l H); auto.
+Qed.
+
+Lemma launch_iter_x p L0 d n s : dry c = d -> qinv c g p L0 d s ->
+  (throttle c > 0 -> length (inprog s) + n <= throttle c) -> X c s -> R2 nobody s ->
+  let s' := Nat.iter n (launch_body_gen c g) s in
+  X c s' /\ R2 nobody s' /\ SR s s' /\ ready s' = skipn n (ready s) /\
+  (forall y, In y (firstn n (ready s)) -> stat s' y <> INITIALIZED).
+Proof.
+  intros Hd Q TB Xs Rs. induction n as [|n IH].
+  - cbn. split; [exact Xs|split; [exact Rs|split; [apply SR_refl|split; [reflexivity|intros y []]]]].
+  - change (Nat.iter (S n) (launch_body_gen c g) s) with (launch_body_gen c g (Nat.iter n (launch_body_gen c g) s)).
+    assert (TBn : throttle c > 0 -> length (inprog s) + n <= throttle c) by (intros H; specialize (TB H); lia).
+    destruct (IH TBn) as (X1 & R1 & S1 & E1 & N1).
+    destruct (launch_iter_spec c g p L0 W d n s Hd Q TBn) as [(In1 & _) _].
+    set (sn := Nat.iter n (launch_body_gen c g) s) in *.
+    pose proof (launch_body_x sn In1 X1 R1) as LB. cbv zeta in LB.
+    destruct LB as (X2 & R2' & S2 & E2 & N2).
+    split; [exact X2|]. split; [exact R2'|]. split; [eapply SR_trans; eauto|].
+    split; [rewrite E2, E1; apply tl_skipn|].
+    intros y Hy. apply firstn_S_In in Hy. destruct Hy as [Hy|Hy].
+    + apply (sr_ni sn _ S2). apply N1. exact Hy.
+    + apply N2. rewrite E1. exact Hy.
 Qed.
 
 End Pass2.
